@@ -7,6 +7,7 @@ package props
 
 import (
 	"fmt"
+	"math"
 	"math/rand/v2"
 	"os"
 	"sort"
@@ -104,7 +105,9 @@ func c17Run(c c17Case) (nontrivial bool, inconclusive bool, lateness []time.Dura
 				}
 				p.off = prev
 			case 6:
-				p.off, p.far = time.Hour, true
+				// "never": an hour, a century, the largest Duration (a deadline past
+				// the year 2262, where UnixNano no longer fits), the largest time value
+				p.off, p.far = []time.Duration{time.Hour, time.Hour, 100 * 365 * 24 * time.Hour, math.MaxInt64, -2}[rng.IntN(5)], true
 			default:
 				p.off = time.Duration(rng.IntN(300)) * time.Millisecond
 			}
@@ -132,6 +135,9 @@ func c17Run(c c17Case) (nontrivial bool, inconclusive bool, lateness []time.Dura
 				t := &c17Task{id: i, submitter: s, far: p.far}
 				now := time.Now()
 				t.deadline = now.Add(p.off)
+				if p.far && p.off == -2 {
+					t.deadline = time.Unix(1<<62, 0)
+				}
 				if p.off > 0 && !p.far && rng == nil {
 					_ = now
 				}
